@@ -202,9 +202,72 @@ CHECKS["C10"] = {
     "assumptions": ASSUME_COMMON + ["the reference evaluator vf/refexpr.py is the C-precedence specification"],
 }
 
+CHECKS["C12"] = {
+    "level": "exploration",
+    "shards": {"quick": 16, "thorough": 32},
+    "budget": {"quick": 45, "thorough": 300},
+    "rule": "random enum/flag declarations (gaps, duplicates, expressions over earlier members, literal forms, all 14 "
+            "underlying integer types, token and legacy parser, anonymous) are loaded; __members__ is compared with "
+            "the statement's numbering rule; then every underlying value (all 256 for 8-bit types; members, "
+            "boundaries, combinations, unknown and random values otherwise) is parsed as scalar, stream, array, "
+            "struct field and bit-field in both endians and readers and checked for value preservation, dump, "
+            "equality and hash rules; distinct = (declaration, endian, reader, underlying value)",
+    "anchors": ["types/enum.py", "types/flag.py", "parser.py"],
+    "required_reach": ["types/enum.py:Enum._missing_", "types/enum.py:_fix_alias_members",
+                       "types/enum.py:EnumMetaType._read", "types/enum.py:EnumMetaType._read_array",
+                       "types/enum.py:EnumMetaType._write", "types/enum.py:EnumMetaType._write_array",
+                       "parser.py:TokenParser._enum", "parser.py:CStyleParser._enums", "types/enum.py:Enum.__eq__",
+                       "types/flag.py:Flag.__eq__", "types/enum.py:Enum.__hash__", "types/flag.py:Flag.__hash__"],
+    "required_cells": ["enum:compiled", "enum:interpreted", "flag:compiled", "flag:interpreted", "legacy-parser",
+                       "anonymous-enum", "enum:int8", "flag:uint8", "enum:uint24", "flag:int16"],
+    "assumptions": ASSUME_COMMON,
+}
+
+CHECKS["C13"] = {
+    "level": "exploration",
+    "shards": {"quick": 16, "thorough": 32},
+    "budget": {"quick": 45, "thorough": 300},
+    "rule": "metamorphic: a generated definition text is loaded as the reference; mutants are produced by pure "
+            "insertion of block comments (containing quotes, semicolons, braces, keywords, newlines), line comments and "
+            "whitespace (space, tab, LF, CRLF) at token boundaries outside [...] and #define lines, by "
+            "dependency-respecting reordering of the top-level declarations and by splitting them over several load() "
+            "calls; type table signature (anonymous names normalised), constants and parse results on fixed inputs "
+            "must be identical; alias identity / redeclaration / unknown / cyclic aliases are checked separately; "
+            "distinct = (text, mutation)",
+    "anchors": ["parser.py", "cstruct.py"],
+    "required_reach": ["parser.py:TokenParser._remove_comments", "parser.py:TokenParser.parse",
+                       "parser.py:TokenParser._struct", "parser.py:TokenParser._typedef", "parser.py:TokenParser._enum",
+                       "parser.py:TokenParser._constant", "parser.py:TokenParser._parse_field_type",
+                       "parser.py:TokenParser._names", "cstruct.py:cstruct.add_type", "cstruct.py:cstruct.resolve"],
+    "required_cells": ["reordered", "split-loads", "builtin-aliases", "alias-chain", "unknown-alias", "cyclic-alias"],
+    "assumptions": ASSUME_COMMON,
+}
+
 NOT_APPLICABLE = {}
 
 MANIFEST_TEXT = {
+    "C13": {
+        "text": "Metamorphic runtime testing of the real definition parser: thousands of mutants (comment/whitespace "
+                "insertions at token boundaries, dependency-respecting reorderings, split loads) of generated "
+                "definitions must produce the same type table, constants and parse results as the original; alias "
+                "identity, redeclaration and unknown/cyclic alias handling are exercised directly. Held-on-observed; "
+                "insertion points are accounted per boundary kind.",
+        "design_ref": "DESIGN.md 4 C13",
+        "note": "insertions are pure (the text's own separators stay); array brackets and #define lines are "
+                "line-oriented by the statement and excluded",
+        "technique": "metamorphic mutation of generated definition texts with a type-table/behaviour oracle",
+    },
+    "C12": {
+        "text": "Runtime observation of real enum/flag classes built from random declarations over every underlying "
+                "integer type: member numbering against the stated rule (both parsers), then value preservation, "
+                "dump, equality and hash for every underlying value of 8-bit types and boundary/combination/unknown/"
+                "random values of wider ones, as scalar, array, struct field and bit-field, in both endians and "
+                "reader modes. Held-on-observed.",
+        "design_ref": "DESIGN.md 4 C12",
+        "note": "alias members compare equal but may hash differently (only two parses of one value are required to "
+                "hash equally); known finding K2 (flag over a signed type, negative values) is classified by mechanism",
+        "technique": "generated declarations + value sweeps with a numbering/equality oracle",
+    },
     "C10": {
         "text": "The real evaluator is run on the complete set of well-formed expressions up to 5 tokens (enumerated "
                 "from the grammar on every run), on random deeper ones and on literal-form sweeps, each judged against "
